@@ -41,9 +41,22 @@ package wcwidth
 //@   apply ofrune_range(r)
 //@   ensures !overridden(r) ==> 0 <= result && result <= 2
 
+//@ axiom bd_zero(s string)
+//@   ensures boundary(s, 0)
+//@ axiom bd_step(s string, i int)
+//@   requires 0 <= i && i < len(s) && boundary(s, i)
+//@   ensures boundary(s, i + sizeat(s, i))
+
 //@ func Of
 //@   props C34
 //@   pure
+//@   apply bd_zero(s)
+//@   apply pw_step(s, 0)
+//@   apply bd_step(s, 0)
+//@   apply pw_step(s, 1)
+//@   ensures 0 <= w && w <= 4096 * len(s)
+//@   ensures [single-rune] len(s) >= 1 && sizeat(s, 0) == len(s) ==> w == ofrune(runeat(s, 0))
+//@   ensures [two-ascii] len(s) == 2 && s[0] < 128 && s[1] < 128 ==> w == ofrune(s[0]) + ofrune(s[1])
 //@   apply pw_zero(s)
 //@   loop 1 apply pw_step(s, range_pos)
 //@   loop 1 apply ofrune_range(r)
